@@ -48,6 +48,8 @@ class World:
         self.decisions = 0
         self._qcache = {}
         self._keep = []
+        self.stdout = []      # chars written by print!/println! on this path (process standard output)
+        self.stderr = []
         self.bounds = {}      # z3 ast id of a plain variable -> (lo, hi) asserted at creation / by restrict()
 
     # -- variables
